@@ -2,6 +2,4 @@
 # Builds the verification framework from files on disk only (offline).
 set -e
 cd "$(dirname "$0")"
-/venv/bin/python harness/gen_lean.py
-cd lean
-lake build
+/venv/bin/python harness/setup_build.py
